@@ -19,9 +19,9 @@ Claimed at proof level, partial.  Machine-checked:
     (`apply_with_options_wellformed`, from the back-tracking induction of C03);
   * inside the SQL engine, a unary operation applied to any raw SQL tree, and conforming one, return a
     well-formed relation in the same engine (`sql_apply_wellformed`, `sql_conform_wellformed`);
-  * the tree `Processor.process` returns for a tree over several iteration engines is `WF` and executable
-    (`Rel.IterOK`: operands of a chain share an engine, transfers lead from an iteration engine) and has the engine of
-    the input (`processed_trees_wellformed`).
+  * the tree `Processor.process` returns for a multi-engine tree whose operations run in iteration engines is `WF`,
+    executable (`Rel.IterOKs`: operands of a chain share an engine, a transfer leads from an iteration engine or
+    holds its payload) and has the engine of the input (`processed_trees_wellformed`).
 Not proved (validated by walking every tree the real library returns): `EngineOK` of the nodes INSIDE SQL-engine trees
 (expression support per node), back-tracking of joins, trees processed through a SQL engine.
 -/
@@ -235,11 +235,12 @@ theorem apply_with_options_wellformed (σ : Leaves) (st : Store) (fuel : Nat) (o
   let A := applyOp_sound σ st fuel o t opts res hkt hpk hwf htr hnd h
   ⟨A.wf, A.engine⟩
 
-theorem processed_trees_wellformed (σ : Leaves) (t : Rel) (fuel : Nat) (matAs : Option String) (s : ProcState)
-    (reg : Nat → Option (List Row)) (hm : t.MultiIter) (T : TreeInv σ reg t s) (hf : t.size ≤ fuel)
+theorem processed_trees_wellformed (σ : Leaves) (sq0 : SqlState) (h0 : sq0.payload 0 = none) (t : Rel) (fuel : Nat)
+    (matAs : Option String) (s : ProcState) (reg : Nat → Option (List Row)) (hm : t.MultiIter)
+    (hsql : t.SqlSrcOK σ sq0) (T : TreeInv σ reg sq0 t s) (hf : t.size ≤ fuel)
     (res : Res) (b : Bool) (s' : ProcState) (h : (processRec σ fuel t matAs).run.run s = (.ok (res, b), s')) :
-    (res.get t).WF ∧ (res.get t).IterOK ∧ (res.get t).engine = t.engine := by
-  obtain ⟨_, _, P⟩ := process_multi_iter σ t fuel matAs s reg hm T hf res b s' h
-  exact ⟨P.inv.wf, P.inv.iterOK, P.engine⟩
+    (res.get t).WF ∧ (res.get t).IterOKs s'.st ∧ (res.get t).engine = t.engine := by
+  obtain ⟨_, _, P⟩ := process_multi_iter σ h0 t fuel matAs s reg hm hsql T hf res b s' h
+  exact ⟨P.inv.wf, P.exec, P.engine⟩
 
 end DafRel.Props.C14
